@@ -96,6 +96,10 @@ func scenario(x *explore.X, maxSegs int, withBackPressure bool) {
 	}
 	// per-request server timeouts of the library configuration (HTTPServerConfig.ReadTimeout / WriteTimeout):
 	// they bound reading one request and writing one response, a tunnel is neither
+	// --log-http body installs a response modifier that reads message bodies: a 101 / CONNECT reply has none to read
+	if x.Choose("log-http-body", 2) == 1 {
+		opts.LogHTTP = "body"
+	}
 	srvTO := []string{"none", "write-timeout", "read-timeout"}[x.Choose("server-timeouts", 3)]
 	opts.Tweak = func(cfg *forwarder.HTTPProxyConfig, _ *forwarder.HTTPTransportConfig) {
 		switch srvTO {
@@ -180,7 +184,11 @@ func scenario(x *explore.X, maxSegs int, withBackPressure bool) {
 			x.Failf("tunnel/upstream-extra", "bytes after the CONNECT head: %q", world.Clip(rq.Rest))
 		}
 		// the upstream proxy's reply, possibly in one segment with the target's first bytes
-		hs.Send(append([]byte("HTTP/1.1 200 Connection established\r\nX-Up: 1\r\n\r\n"), early()...))
+		// (a 2xx reply to CONNECT has no body: a Content-Length or Transfer-Encoding field on it is to be ignored,
+		// RFC 9110 section 9.3.6 - some proxies send one)
+		upFraming := []string{"", "Content-Length: 5\r\n", "Content-Length: 0\r\n", "Transfer-Encoding: chunked\r\n"}[x.Choose("upstream-reply-framing-field", 4)]
+		hs.Send(append([]byte("HTTP/1.1 200 Connection established\r\nX-Up: 1\r\n"+upFraming+"\r\n"), early()...))
+		framing += "|up:" + upFraming
 		defer func(n int) { _ = n }(0)
 		// payload accounting at the hop starts after the CONNECT head
 		tg = &offset{endpoint: tg, skip: len(rq.Msgs[0].Raw)}
@@ -245,7 +253,7 @@ func scenario(x *explore.X, maxSegs int, withBackPressure bool) {
 	}
 	// ---- explore all interleavings of the remaining script events ------------------------------
 	cFin, tFin := false, false
-	hist := fmt.Sprintf("%s|aged=%v|close=%v|to=%s|fr=%q|c%v|t%v|", routings[routing], aged, upClose, srvTO, framing, lens(cs), lens(ts))
+	hist := fmt.Sprintf("%s|aged=%v|close=%v|to=%s|log=%s|fr=%q|c%v|t%v|", routings[routing], aged, upClose, srvTO, opts.LogHTTP, framing, lens(cs), lens(ts))
 	check := func(ev string) bool {
 		x.Check()
 		gotT, gotC := tg.Recv(), cl.Recv()
